@@ -3,7 +3,7 @@
 # tier of its property (scratch copies of /repo/hta; /repo is never touched) and writes one line per change.
 cd "$(dirname "$0")/.." || exit 2
 OUT=${1:-/tmp/detection_matrix.txt}
-: > "$OUT"
+touch "$OUT"   # resumable: changes already listed with an exit code are skipped
 export VERIF_MAX_CONFIRM=2
 for f in mutants/*.patch seeded/*/patch.diff; do
   [ -f "$(dirname "$f")/patch_rebased.diff" ] && [ "$(basename "$f")" = "patch.diff" ] && f="$(dirname "$f")/patch_rebased.diff"
@@ -11,6 +11,7 @@ for f in mutants/*.patch seeded/*/patch.diff; do
     mutants/*) name=$(basename "$f" .patch); prop=$(echo "$name" | cut -c1-3 | tr a-z A-Z);;
     *) name=$(basename "$(dirname "$f")"); prop=$(echo "$name" | cut -c1-3);;
   esac
+  grep -q "^$name $prop exit=" "$OUT" && continue
   res=$(tools/mutant.sh "$f" "$prop" 2>&1 | grep -v "^KNOWN-FINDING" )
   ex=$(echo "$res" | grep -o "exit=[0-9]*" | tail -1)
   nv=$(echo "$res" | grep -o "new_violations=[0-9]*" | tail -1)
